@@ -75,6 +75,22 @@ def check(case):
         raise PropertyViolation("after-reinitialise:" + v.bucket, "after reinitialize_parameters() and writing OTHER parameters into the new parameter objects: " + v.message, v.detail)
     gen.set_net(state.rbm_am, case["am"])
     gen.set_net(state.rbm_ph, case["ph"])
+    if case["n"] <= 4:
+        # after an exception (see c01.py): aborted fit with normalisation evaluated in a callback, caught, parameters changed, evaluated
+        import numpy as _np
+        sp_ = state.generate_hilbert_space()
+        dat_ = sp_[: min(3, sp_.shape[0])].clone()
+        gen.abort_a_fit(state, dat_, _np.array([["Z"] * case["n"]] * dat_.shape[0]), hook="on_epoch_end" if len(case["i1"]) % 2 else "on_batch_end", touch_normalization=True, space=sp_)
+        z_after = state.normalization(sp_)         # evaluated once after the abort (same space object), THEN the parameters change
+        mir2 = gen.mirrored(case)
+        gen.set_net(state.rbm_am, mir2["am"])
+        gen.set_net(state.rbm_ph, mir2["ph"])
+        try:
+            check_round(mir2, state, space=sp_ if len(case["i1"]) % 3 else None)
+        except PropertyViolation as v:
+            raise PropertyViolation("after-aborted-fit:" + v.bucket, "after a fit() that a user callback aborted with an exception (caught) and a parameter change: " + v.message, v.detail)
+        gen.set_net(state.rbm_am, case["am"])
+        gen.set_net(state.rbm_ph, case["ph"])
     # shared object: this state's phase network is handed to ANOTHER mixed state as its (amplitude) module and that state is evaluated;
     # the first state must be unaffected
     from qucumber.nn_states import DensityMatrix
@@ -122,12 +138,12 @@ def sparse_history(case):
 _OWNED = set()
 
 
-def check_round(case, state):
+def check_round(case, state, space=None):
     n = case["n"]
     D = 2 ** n
     am, ph = gen.ref_nets(case)
     V = R.bits(n)
-    space = state.generate_hilbert_space()
+    space = state.generate_hilbert_space() if space is None else space       # histories pass the SAME space object they used before
     rho = R.lib_to_c(state.rho(space, space))
     require(rho.shape == (D, D), "shape", f"rho(space, space) has shape {tuple(rho.shape)}")
     ref = R.rho_ref(am, ph, V)
